@@ -72,29 +72,34 @@ EXTRA = {
         'permission lookup was made. Names beginning with a blank are in the wire alphabet; an exception of '
         'the path resolver is a violation.'
         " Every home_path setting (doubled slashes, '.', '..' detours): PWD, relative resolution and permission lookup right after login go by the normalised form. On every base the components of the real path below the base must be the components of the virtual path (one location, one virtual name - matters for Windows-flavour bases)."
-        ' File-system backends serving a relative base directory with names a shell would expand (~, ~root, $HOME), judged on the real file system.',
+        ' File-system backends serving a relative base directory with names a shell would expand (~, ~root, $HOME), judged on the real file system.'
+        ' One-byte server encodings with names made of the telnet command bytes.',
     'C03':
         ' Also with a user manager whose get_user/authenticate/notify_logout really suspend: every pipelined '
         'burst of 2-3 login commands and probes from 5 pre-states under every completion order with <= d '
         'deviations - never more authority (served probes, final login) than executing the burst in order. A '
         'user table with an empty-string password.'
-        ' Relative-path transfers accepted under one login whose data connection is made after USER named another account.',
+        ' Relative-path transfers accepted under one login whose data connection is made after USER named another account.'
+        " Every verb of the server's own command table beyond the 25 of the model is probed in every login state.",
     'C04':
         ' Also: a pipelined CWD while the path checks of the previous command wait for executor jobs (every '
         'completion order with <= d deviations) or for one slow operation kind; effect oracle: the tree '
         'changes only where writing is allowed and nothing of an unreadable location is revealed.'
-        ' Directory names that differ only in their Unicode normalisation form (entry and request in either form, 12 verbs, effect oracle).',
+        ' Directory names that differ only in their Unicode normalisation form (entry and request in either form, 12 verbs, effect oracle).'
+        ' Names with two dots inside them.',
     'C05':
         ' Also every command of the alphabet on a server with path_timeout whose backend calls outlast it: '
         'exactly one final reply, session continues. Arguments with doubled leading slashes; a server that '
         'waits for the data connection without limit.'
         ' REST with thousands of digits; an unsupported verb between REST and the transfer.'
-        ' Every attribute name of the server object sent as a verb.',
+        ' Every attribute name of the server object sent as a verb.'
+        " Verbs from the server's own table that the model does not know; verbs spelled with the kelvin sign; PASV on an IPv6 control connection from five pre-states.",
     'C06':
         ' The line alphabet includes the characters str.splitlines() treats as boundaries (VT, FF, GS, NEL, '
         'LS, lone CR). Every high byte of latin-1 / cp1251 alone, doubled and tripled; replies the server '
         'encoding cannot represent, through the real writer and a real client.'
-        ' Reply text that is not in a Unicode normalisation form.',
+        ' Reply text that is not in a Unicode normalisation form.'
+        ' Overlapping wait / expected masks; after a rejected reply the very next reply must be the next one sent.',
     'C07':
         ' Also: the k-th backend call of a listing fails (k=1..15, MLSD and LIST): a listing reported '
         'complete has every entry exactly once. A listing whose data connection arrives 10 s .. 1 h after the '
@@ -105,42 +110,50 @@ EXTRA = {
     'C08':
         ' Every high byte of the single-byte encodings (alone, doubled, after 0xFF); the bare relative name '
         'nested in itself and re-made after removal under another spelling or by another session.'
-        ' Names a shell or a home-directory convention would read something into (~, $HOME, *, ?, [a], {a,b}).',
+        ' Names a shell or a home-directory convention would read something into (~, $HOME, *, ?, [a], {a,b}).'
+        ' A transfer by relative name whose data connection is made after a CWD.',
     'C09':
         ' Also with backends (client and server side) whose read() returns 1 or 3 bytes at a time. '
         "Destinations with doubled slashes; entries dated on a leap day / New Year's Eve / 1971 / 2099 on "
         'LIST-only servers.'
-        " Trees whose names contain the listing formats' separators.",
+        " Trees whose names contain the listing formats' separators."
+        ' Sibling names that differ in case or normalisation form only.',
     'C10':
         ' Also with a suspending user manager: BFS on it and disconnect / pipelined-USER races inside its '
         'awaits; the alphabet includes an empty line and an unknown verb. Replies the server encoding cannot '
         'represent; server restart and a failing user manager in the middle of a re-login; counters must be '
         'exactly at their maximum once everybody has gone.'
-        ' The last slot being given back while the next client connects (at every turn of the tear-down).',
+        ' The last slot being given back while the next client connects (at every turn of the tear-down).'
+        ' Several commands and QUIT in one segment from a peer that is gone at once (<= 3 deviations incl. done-set orders); a peer that reconnects from the same (host, port).',
     'C11':
         ' Also on an IPv6 control connection (PASV answered 503, EPSV served). close() and a second start() '
         'after short histories, with the pool given as a list or as a one-shot generator.'
-        ' Listener start-up that takes seconds, with and without a socket_timeout shorter than that.',
+        ' Listener start-up that takes seconds, with and without a socket_timeout shorter than that.'
+        ' 421 only when no port of the pool could have been bound (three sessions, three attempts per port); start() keyword arguments.',
     'C12':
         ' Also on a speed-limited server and with a suspending user manager, with additional cuts placed '
         'before every advance of virtual time (the server sleeps in a throttle pause or a slow backend call); '
         'the clock is frozen at the cut itself. server.close() while another client is connecting.'
         ' Shutdown by cancelling Server.run() (SimListener.serve_forever copies CPython 3.12.1: it waits for every accepted connection). Sockets and listeners are also sampled at the very moment close() returns; a closing socket that still waits for a non-reading peer to take buffered data counts as open.'
-        ' Scripts that re-login while a transfer is open.',
+        ' Scripts that re-login while a transfer is open.'
+        ' IPv6 control connections; tasks alive at the moment close() returns.',
     'C13':
         ' A backend whose close() returns a value; a data connection opened before other commands must '
-        'survive their failures.',
+        'survive their failures.'
+        ' Failing commands followed by QUIT in one segment with the failing call suspended first; localised error texts on latin-1 / ascii servers; the client giving its data connection up and reconnecting without PASV after a refused transfer.',
     'C14':
         ' Also on the executor-based backend (ABOR racing with file operations in flight). Also with a second '
         'data connection opened in advance for the next transfer just before the ABOR, and that transfer then '
         'run without a new PASV.'
         ' The client dropping its data connection (close / reset) right before ABOR. An ABOR sent behind the verb is no longer allowed to overtake it. A closing data socket that waits for a non-reading peer counts as open.'
-        " Speed-limited servers with the next command in the ABOR's segment.",
+        " Speed-limited servers with the next command in the ABOR's segment."
+        ' The pipelined follow-up also on the executor backend; the backend failing at close() of the aborted file; the spare connection must survive the ABOR.',
     'C15':
         ' Logins of the same account during the measured transfers; LIST and MLSD of a large directory as '
         'throttled transfers.'
         " Every public read path (read, readline, readexactly); reset periods below one byte's time (limit 100, reset 0.001/0.01, 1-byte blocks, all gap sequences to length 7/9) with start times compared to 1e-6 s - no per-operation rounding allowance."
-        ' Stream time-outs a quarter of one throttle pause on the throttling side.',
+        ' Stream time-outs a quarter of one throttle pause on the throttling side.'
+        ' One client moving many small files one after the other.',
     'C16':
         ' Also with a user manager whose logout notification takes 5 s: the sockets must still be released at '
         'the bound; and sessions that end with QUIT (alone or pipelined behind other commands) from a peer '
@@ -153,22 +166,26 @@ EXTRA = {
         "session's Connection (custom backends read it). A limited user's session that dies awkwardly "
         'followed by the next session; two users with different bases and permissions on the same virtual '
         'paths.'
-        ' A session turned away because every configured passive port is busy, then the next session.',
+        ' A session turned away because every configured passive port is busy, then the next session.'
+        ' Pairs with transfers suspended in both sessions at once, each in a child process with a wall-clock budget (a lock held across an await stops the whole process).',
     'C18':
         ' Including uploads sent in two pieces with an MLST of the same file between them.'
-        ' Two-session histories: what one session looked at is changed by another, then the first looks or acts again.',
+        ' Two-session histories: what one session looked at is changed by another, then the first looks or acts again.'
+        " Another session's command between the two pieces of an upload.",
     'C19':
         " LIST lines that end before the file name are explicit cases (reported, not dropped as '.'). Parser "
         'termination: pumped token runs at every token boundary, each input in a child process with a '
         'wall-clock budget.'
         ' MLSD lines without a pathname are reported, not dropped.'
-        ' The parser sweep runs under all four listing-parser configurations.',
+        ' The parser sweep runs under all four listing-parser configurations.'
+        ' Commands cut off by the end of the stream are not carried out; listing names that are not plain names never make Client.download write outside its destination (real file system); paths of 8000 / 32000 components under a wall-clock bound; a bad listing line followed by 426 / 451 / no completion still raises ValueError.',
     'C20':
         ' Also what follows an accepted login (work, re-login) alone and next to a second session of the same '
         'account that quits or vanishes. Non-ASCII spellings of PASS; a password check guarded by '
         'aioftp.with_timeout that times out.'
         ' Passwords with CR/LF inside given to Client.login: no piece of them in any log.'
-        ' Peers that end lines with a bare LF or mix line ends.',
+        ' Peers that end lines with a bare LF or mix line ends.'
+        " Commands refused by the account's permission rules after login.",
 }
 
 ENV_NOTE = ("Trusted base: the environment model (vf/simloop.py: selector, TCP, clock, executor) and the harness-side "
